@@ -6,6 +6,7 @@ import (
 	"os"
 	"path/filepath"
 	"regexp"
+	"sort"
 	"strings"
 
 	"github.com/bmatcuk/doublestar/v4"
@@ -101,7 +102,12 @@ func ParseConfig(b []byte) (*Config, error) {
 		msg := strings.ReplaceAll(err.Error(), "\n", " ")
 		return nil, errors.New(msg)
 	}
+	pats := make([]string, 0, len(c.Paths))
 	for pat := range c.Paths {
+		pats = append(pats, pat)
+	}
+	sort.Strings(pats) // the pattern named by the error does not depend on the iteration order of the map
+	for _, pat := range pats {
 		if !doublestar.ValidatePattern(pat) {
 			return nil, fmt.Errorf("invalid glob pattern %q in \"paths\"", pat)
 		}
